@@ -49,10 +49,11 @@ class CheckC09(core.Check):
         rn = [0, 0]
         last = {}  # direction -> (register, nonce) of the last written message
         k = 0
+        desync = False
         for _ in range(rnd.randrange(6, 30)):
             d = 0 if parsed.oneway else rnd.randrange(2)
             w, r = ("A", "B") if d == 0 else ("B", "A")
-            a = rnd.choice(["w", "w", "wbad", "deliver", "deliver", "garbage", "short", "paybuf", "setrx", "settx", "setboth", "replay", "setrx_sender"])
+            a = rnd.choice(["w", "w", "wbad", "deliver", "deliver", "garbage", "short", "paybuf", "setrx", "settx", "setboth", "replay", "setrx_sender", "rekey", "rekey", "wbig"])
             k += 1
             if st:
                 n = rnd.choice(VALUES + [rnd.getrandbits(64)])
@@ -80,8 +81,29 @@ class CheckC09(core.Check):
             elif a == "wbad":
                 lab = c.op("t_write", w, pay="gen:6:p%d" % k, buf=21)
                 steps.append((lab, w, "wbad", d))
+            elif a == "wbig":
+                # over the 65535 limit although the buffer would hold it: refused, the counter stays
+                lab = c.op("t_write", w, pay="gen:%d:big" % rnd.choice([65520, 65535, 70000]), buf=140000)
+                steps.append((lab, w, "wbad", d))
+            elif a == "rekey":
+                # rekeys never touch a counter - also not one that sits on 2^64-1
+                which = rnd.choice(["sync", "out", "in", "manual"])
+                if which in ("sync", "out"):
+                    steps.append((c.op("rekey_out", w), w, "rekey", d))
+                if which in ("sync", "in"):
+                    steps.append((c.op("rekey_in", r), r, "rekey", d))
+                if which == "manual":
+                    kk = "%064x" % rnd.getrandbits(256)
+                    for pid in (w, r):
+                        steps.append((c.op("rekey_manual", pid, i=kk, r=kk), pid, "rekey", d))
+                # whatever was written before under the old key can no longer be delivered
+                last.pop(d, None)
+                if which == "manual":
+                    last.clear()
+                if which in ("out", "in"):
+                    desync = True  # keys now disagree: no further deliveries are scheduled
             elif a in ("deliver", "replay"):
-                if d in last:
+                if d in last and not desync:
                     reg, mn = last[d]
                     lab = c.op("t_read", r, msg="$" + reg, buf=BIG)
                     acc = mn == rn[d] and rn[d] != MAXN
@@ -96,7 +118,7 @@ class CheckC09(core.Check):
                 steps.append((lab, r, "garbage", d))
             elif a == "paybuf":
                 # a genuine, in-order message delivered into a payload buffer that is too small: refused, nothing moves
-                if d in last:
+                if d in last and not desync:
                     reg, mn = last[d]
                     lab = c.op("t_read", r, msg="$" + reg, buf=rnd.choice([0, 5]))
                     steps.append((lab, r, "garbage", d))
